@@ -983,14 +983,19 @@ func (g *groupQuery) position() int {
 // logicalQuery is an XPath logical expression.
 type logicalQuery struct {
 	Left, Right query
+	done        bool
 
 	Do func(iterator, interface{}, interface{}) interface{}
 }
 
 func (l *logicalQuery) Select(t iterator) NodeNavigator {
-	// When a XPath expr is logical expression.
+	// When a XPath expr is logical expression: the context node is selected, once, if it holds.
+	if l.done {
+		return nil
+	}
 	node := t.Current().Copy()
 	val := l.Evaluate(t)
+	l.done = true
 	switch val.(type) {
 	case bool:
 		if val.(bool) == true {
@@ -1001,6 +1006,7 @@ func (l *logicalQuery) Select(t iterator) NodeNavigator {
 }
 
 func (l *logicalQuery) Evaluate(t iterator) interface{} {
+	l.done = false
 	m := l.Left.Evaluate(t)
 	n := l.Right.Evaluate(t)
 	return l.Do(t, m, n)
